@@ -14,7 +14,9 @@
 (*         vbase: the per-core record base address it reports              *)
 (*   bmp:  hosts: keys <<c, f>> / <<c, f, b>> given to the constructor     *)
 (* Events:                                                                 *)
-(*   <<"enter", map, ctx, sent>>    a block is entered; ctx = the map of   *)
+(*   <<"enter", map, ctx, sent, key>>  a block is entered; ctx = the map of *)
+(*                                  (key > 0: a context object the program *)
+(*                                  keeps and enters again; 0: fresh)      *)
 (*                                  arguments the controller then reports  *)
 (*   <<"app", pos, kw, outcome, sent, ctx>>  application(...) called and,  *)
 (*                                  when outcome = <<"ok">>, entered       *)
@@ -39,10 +41,20 @@ SeqSet(q) == { q[i] : i \in 1..Len(q) }
 \* blind = 1: the driver never asked the controller what is in force (asking is itself a call into the mechanism and
 \* would refresh anything it caches); such traces are judged on the datagrams alone
 Blind == Tr.blind = 1
+\* A context object kept by the program can be entered several times (even inside itself), and
+\* update_current_context changes the object itself: blocks made from a kept object (obj > 0) therefore take their
+\* arguments from the object's current map, st.objs[obj].
+ObjKnown(k) == \E o \in st.objs : o[1] = k
+ObjMap(k) == (CHOOSE o \in st.objs : o[1] = k)[2]
+ArgsOf(b) == IF b.obj > 0 /\ ObjKnown(b.obj) THEN ObjMap(b.obj) ELSE b.args
+Stk == [i \in 1..Len(st.stack) |-> [args |-> ArgsOf(st.stack[i]), app |-> st.stack[i].app]]
+PushObj(stack, m, app, k) == Append(stack, [args |-> m, app |-> app, obj |-> k])
+\* the map a block entered with the event's map and object key pushes
+EnterMap(e) == IF e[5] > 0 /\ ObjKnown(e[5]) THEN ObjMap(e[5]) ELSE e[2]
 MethNamed(name) == Tr.meths[CHOOSE i \in 1..Len(Tr.meths) : Tr.meths[i][1] = name]
 KnownMeth(name) == \E i \in 1..Len(Tr.meths) : Tr.meths[i][1] = name
 IntOf(r) == r[2]
-TopBlock == st.stack[Len(st.stack)]
+TopBlock == Stk[Len(Stk)]
 All(sent, P(_)) == \A i \in 1..Len(sent) : P(sent[i])
 
 \* connections known to the machine controller in state st
@@ -55,15 +67,15 @@ ConnOk(d) == IF InsideMachine(DX(d), DY(d), Tr.w, Tr.h) /\ BoardDetermined(DX(d)
 ----------------------------------------------------------------------------
 \* clauses common to both controllers for a call of meth
 CallClauses(meth, pos, kw, outcome, sent) ==
-    LET lacking == Lacking(meth, pos, kw, st.stack)
+    LET lacking == Lacking(meth, pos, kw, Stk)
     IN [RequiredRejectedBeforeSend |-> lacking # {} => outcome = <<"raise", "TypeError">>,
         AcceptedWhenResolved       |-> lacking = {} => outcome = <<"ok">>,
         NothingSentOnReject        |-> outcome[1] = "raise" => sent = <<>>]
 
 McInvoke(name, pos, kw, outcome, sent) ==
     LET meth == MethNamed(name)
-        ok   == outcome = <<"ok">> /\ Lacking(meth, pos, kw, st.stack) = {}
-        R(k) == IntOf(Resolved(meth, pos, kw, st.stack, k))
+        ok   == outcome = <<"ok">> /\ Lacking(meth, pos, kw, Stk) = {}
+        R(k) == IntOf(Resolved(meth, pos, kw, Stk, k))
         cores == Declared(meth) \cap CoreNames
         core == CHOOSE k \in cores : TRUE
         scope == IF name \in Explorers THEN 1..(IF Len(sent) > 0 THEN 1 ELSE 0) ELSE 1..Len(sent)
@@ -85,8 +97,8 @@ McInvoke(name, pos, kw, outcome, sent) ==
 
 BmpInvoke(name, pos, kw, outcome, sent) ==
     LET meth == MethNamed(name)
-        ok   == outcome = <<"ok">> /\ Lacking(meth, pos, kw, st.stack) = {}
-        R(k) == IntOf(Resolved(meth, pos, kw, st.stack, k))
+        ok   == outcome = <<"ok">> /\ Lacking(meth, pos, kw, Stk) = {}
+        R(k) == IntOf(Resolved(meth, pos, kw, Stk, k))
         hosts == SeqSet(Tr.hosts)
         \* the one documented exception: power commands are always addressed to board 0 of the frame and
         \* name the board(s) in the mask of arg2; LED commands name them in both places
@@ -106,25 +118,25 @@ ApplicationMeth == MethNamed("application")
 
 Checks(e) ==
   CASE e[1] = "enter" ->
-        [EnterInForce |-> Blind \/ AsSet(e[3]) = Merged(Push(st.stack, e[2], <<>>)),
+        [EnterInForce |-> Blind \/ AsSet(e[3]) = Merged(Push(Stk, EnterMap(e), <<>>)),
          NothingSentOnEnter |-> e[4] = <<>>]
     [] e[1] = "app" ->
-        LET lacking == Lacking(ApplicationMeth, e[2], e[3], st.stack)
-            a == IntOf(Resolved(ApplicationMeth, e[2], e[3], st.stack, "app_id"))
+        LET lacking == Lacking(ApplicationMeth, e[2], e[3], Stk)
+            a == IntOf(Resolved(ApplicationMeth, e[2], e[3], Stk, "app_id"))
         IN CallClauses(ApplicationMeth, e[2], e[3], e[4], e[5]) @@
            [NothingSentOnEnter |-> e[5] = <<>>,
             EnterInForce |-> Blind \/ IF lacking = {} /\ e[4] = <<"ok">>
-                             THEN AsSet(e[6]) = Merged(Push(st.stack, <<<<"app_id", a>>>>, <<a>>))
-                             ELSE AsSet(e[6]) = Merged(st.stack)]
+                             THEN AsSet(e[6]) = Merged(Push(Stk, <<<<"app_id", a>>>>, <<a>>))
+                             ELSE AsSet(e[6]) = Merged(Stk)]
     [] e[1] = "exit" ->
-        [BalancedExit |-> Len(st.stack) > 1,
+        [BalancedExit |-> Len(Stk) > 1,
          \* leaving a block raises nothing of its own (the body's exception, or the refusal of the stop signal
          \* by the machine, are recorded as "exception")
          ExitCompletes |-> e[2] \in {"normal", "exception"},
          \* leaving restores exactly what was in force before the block was entered
-         ExitRestores |-> (Len(st.stack) > 1 /\ ~Blind) => AsSet(e[4]) = Merged(Pop(st.stack)),
+         ExitRestores |-> (Len(Stk) > 1 /\ ~Blind) => AsSet(e[4]) = Merged(Pop(Stk)),
          \* an application block sends one stop signal, for its own id; any other block sends nothing
-         ApplicationExitStops |-> Len(st.stack) > 1 =>
+         ApplicationExitStops |-> Len(Stk) > 1 =>
                 IF TopBlock.app = <<>> THEN e[3] = <<>>
                 ELSE Len(e[3]) = 1 /\ IsStopFor(e[3][1], TopBlock.app[1]),
          RightConnection |-> Tr.kind = "mc" => All(e[3], ConnOk)]
@@ -132,19 +144,29 @@ Checks(e) ==
         IF ~KnownMeth(e[2]) THEN [KnownMethod |-> FALSE]
         ELSE IF Tr.kind = "mc" THEN McInvoke(e[2], e[3], e[4], e[5], e[6])
         ELSE BmpInvoke(e[2], e[3], e[4], e[5], e[6])
+    \* <<"update", map, ctx, sent>>: update_current_context(**map) was called
+    [] e[1] = "update" ->
+        [UpdateInForce |-> Blind \/ AsSet(e[3]) = Merged(Update(Stk, e[2])),
+         NothingSentOnUpdate |-> e[4] = <<>>]
     [] e[1] = "end" ->
-        [AllBlocksLeft |-> Len(st.stack) = 1,
-         ExitRestores  |-> Blind \/ AsSet(e[2]) = Merged(SubSeq(st.stack, 1, 1))]
+        [AllBlocksLeft |-> Len(Stk) = 1,
+         ExitRestores  |-> Blind \/ AsSet(e[2]) = Merged(SubSeq(Stk, 1, 1))]
     [] OTHER -> [UnknownEvent |-> FALSE]
 
 Apply(e) ==
-  CASE e[1] = "enter" -> [st EXCEPT !.stack = Push(st.stack, e[2], <<>>)]
+  CASE e[1] = "enter" -> [st EXCEPT !.stack = PushObj(st.stack, e[2], <<>>, e[5]),
+                                    !.objs = IF e[5] > 0 /\ ~ObjKnown(e[5]) THEN @ \cup {<<e[5], e[2]>>} ELSE @]
     [] e[1] = "app" ->
         IF e[4] = <<"ok">>
-        THEN LET a == IntOf(Resolved(ApplicationMeth, e[2], e[3], st.stack, "app_id"))
-             IN [st EXCEPT !.stack = Push(st.stack, <<<<"app_id", a>>>>, <<a>>)]
+        THEN LET a == IntOf(Resolved(ApplicationMeth, e[2], e[3], Stk, "app_id"))
+             IN [st EXCEPT !.stack = PushObj(st.stack, <<<<"app_id", a>>>>, <<a>>, 0)]
         ELSE st
     [] e[1] = "exit" -> [st EXCEPT !.stack = Pop(st.stack)]
+    [] e[1] = "update" ->
+        LET top == st.stack[Len(st.stack)]
+        IN IF top.obj > 0 /\ ObjKnown(top.obj)
+           THEN [st EXCEPT !.objs = { IF o[1] = top.obj THEN <<o[1], Updated(o[2], e[2])>> ELSE o : o \in @ }]
+           ELSE [st EXCEPT !.stack = Update(st.stack, e[2])]
     [] e[1] = "invoke" -> IF e[2] = "discover_connections" /\ e[5] = <<"ok">>
                           THEN [st EXCEPT !.discovered = TRUE] ELSE st
     [] OTHER -> st
@@ -152,13 +174,13 @@ Apply(e) ==
 \* what a rejection line says about the event, for the reader of the VIOLATION
 Detail(e) == IF e[1] = "invoke"
              THEN e[2] \o " positional=" \o ToString(e[3]) \o " keywords=" \o ToString(e[4])
-                  \o " in force=" \o ToString(Merged(st.stack)) \o " outcome=" \o ToString(e[5])
+                  \o " in force=" \o ToString(Merged(Stk)) \o " outcome=" \o ToString(e[5])
                   \o " first datagrams <<conn, x, y, p, cmd>>="
                   \o ToString([i \in 1..Min2(Len(e[6]), 4) |-> <<e[6][i][1], e[6][i][2], e[6][i][3], e[6][i][4], e[6][i][5]>>])
-             ELSE e[1] \o " in force before=" \o ToString(Merged(st.stack))
+             ELSE e[1] \o " in force before=" \o ToString(Merged(Stk))
 Bad == LET ck == Checks(Ev) IN {c \in DOMAIN ck : ~ck[c]}
 TInit == /\ tid \in 1..Len(Traces) /\ ei = 1 /\ verdict = <<>>
-         /\ st = [stack |-> << [args |-> Traces[tid].init, app |-> <<>>] >>, discovered |-> FALSE]
+         /\ st = [stack |-> << [args |-> Traces[tid].init, app |-> <<>>, obj |-> 0] >>, discovered |-> FALSE, objs |-> {}]
 TStep == /\ ei <= Len(Tr.ev) /\ verdict = <<>> /\ tid' = tid
          /\ LET bad == Bad
             IN IF bad = {} THEN ei' = ei + 1 /\ st' = Apply(Ev) /\ verdict' = verdict
